@@ -96,6 +96,11 @@ func (calc *RewardCalculator) Calculate() (amt *balance.Amount, err error) {
 	if err != nil {
 		// never happen by design
 		logger.Errorf("Year rewards burned out unexpectedly, year= %v", year+1)
+		// drop the result of the previous cycle: it was computed for a supply that is gone, and a
+		// node that restarts inside this cycle has no such result either (it fails here at every
+		// block); keeping it would make the following blocks of the cycle pull it on this node only
+		amt = balance.NewAmount(0)
+		calc.cached = NewRewardCached()
 		return
 	}
 
